@@ -218,7 +218,9 @@ Proof. exact example_guard. Qed.
        6. every flag spelling of the task is a clean flag and distinct, counters
           start from an int/bool default, positional None-defaults can take a
           value ([guard_w]; implied for contexts built from well-formed
-          signatures, [C01_wf_ctxs_of_wf_sigs_wide_partial]); no task name or
+          signatures, [C01_wf_ctxs_of_wf_sigs_wide_partial]; the last one is
+          [admissible]'s own [positional_fillable]: a counter declared as a
+          required positional can never be supplied -- F-C07e's family); no task name or
           alias starts with "-" ([names_plain]); the initial context has no
           required positional (true of the real core context);
       outside this property
